@@ -384,11 +384,12 @@ struct Tracked
     char *heap;
     uint64_t id;
     uint64_t guard;
-    static std::set<const Tracked *> &live()
+    static std::set<const void *> &live()
     {
-        static std::set<const Tracked *> l;
+        static std::set<const void *> l;
         return l;
     }
+    uint64_t idv() const { return id; }
     static const char *err;
     static long ctors, dtors;
     static void reset()
@@ -420,6 +421,36 @@ struct Tracked
 };
 const char *Tracked::err = nullptr;
 long Tracked::ctors = 0, Tracked::dtors = 0;
+
+// Element types whose size is not a multiple of the pointer size (and with small alignment):
+// the pool's cell stride must be the padded cell size, not the element size. Same ledger as Tracked.
+template <size_t B, size_t A> struct alignas(A) Lite
+{
+    unsigned char raw[B];
+    explicit Lite(uint64_t id_)
+    {
+        Tracked::ctors++;
+        if (!Tracked::live().insert(this).second && !Tracked::err)
+            Tracked::err = "constructed_at_live_address";
+        memset(raw, (int)(uint8_t)id_, B);
+    }
+    Lite(const Lite &) = delete;
+    Lite &operator=(const Lite &) = delete;
+    uint64_t idv() const { return raw[0]; }
+    bool intact() const
+    {
+        for (size_t i = 1; i < B; i++)
+            if (raw[i] != raw[0])
+                return false;
+        return true;
+    }
+    ~Lite()
+    {
+        Tracked::dtors++;
+        if (!Tracked::live().erase(this) && !Tracked::err)
+            Tracked::err = "destroyed_non_live_object";
+    }
+};
 
 // over-aligned element types: "aligned for its use" must hold for them as well
 struct alignas(32) Tracked32 : Tracked
@@ -457,10 +488,10 @@ template <class E, size_t N> struct ObjPool
     void stamp(void *, uint8_t) {} // the object constructed in the cell is the content
     long verify(void *p, uint8_t f)
     {
-        const Tracked *t = (const E *)p;
+        const E *t = (const E *)p;
         if (!Tracked::live().count(t))
             return 0;
-        return (t->id == f && t->intact()) ? -1 : 0;
+        return ((uint8_t)t->idv() == f && t->intact()) ? -1 : 0;
     }
     size_t avail() { return pl->avail(); }
     int allocated(size_t i) { return !pool_in_freelist(pl->freelist(), zone + i * elemsz); }
@@ -479,7 +510,7 @@ template <class E, size_t N> struct ObjPool
     void probe(Case &, const std::vector<Blk> &live)
     {
         for (auto &b : live)
-            VP_CHECK(Tracked::live().count((const Tracked *)b.p), "object_pool_lifetimes",
+            VP_CHECK(Tracked::live().count((const void *)b.p), "object_pool_lifetimes",
                      "block #%u is live but its object is not", b.id);
     }
     void extra_op(Case &c) { c.log("nop "); }
@@ -497,8 +528,17 @@ template <class E, size_t N> static void object_pool_n(Src &s, Case &c)
 }
 static void object_pool_target(Src &s, Case &c)
 {
-    switch (s.below(6))
+    switch (s.below(9))
     {
+    case 6:
+        c.label("size12_align4,N=3");
+        return object_pool_n<Lite<12, 4>, 3>(s, c);
+    case 7:
+        c.label("size9_align1,N=5");
+        return object_pool_n<Lite<9, 1>, 5>(s, c);
+    case 8:
+        c.label("size20_align4,N=4");
+        return object_pool_n<Lite<20, 4>, 4>(s, c);
     case 0:
         c.label("N=4");
         return object_pool_n<Tracked, 4>(s, c);
